@@ -164,6 +164,12 @@ def wfL : List Ty → Bool
   | t :: ts => wf t && wfL ts
 end
 
+/-! ### Kind tests (pattern matches, so that they reduce on constructors) -/
+def isDyn : Ty → Bool | .dyn => true | _ => false
+def isNumber : Ty → Bool | .number => true | _ => false
+def isString : Ty → Bool | .string => true | _ => false
+def isBool : Ty → Bool | .bool => true | _ => false
+
 /-! ### Wire codec -/
 mutual
 partial def toSexp : Ty → Sexp
